@@ -25,6 +25,7 @@ type Env struct {
 	hint  types.Type // expected type for untyped constants in conditional branches
 	newBase string   // allocation counter value at the start of the call: refs >= newBase are new
 	prev  *State      // state at the head of the current loop iteration (for prev())
+	aliasDepth int
 }
 
 func (e *Env) with(name string, v *Value) *Env {
@@ -250,6 +251,17 @@ func (x *Exec) lookupLocal(env *Env, name string) *Value {
 					return x.loadIn(src, p)
 				}
 				return &Value{T: p.Ref, Typ: types.NewPointer(p.Obj), Ptr: p}
+			}
+		}
+	}
+	// the local was renamed: the contract file records which local (k-th of its type) the name meant
+	if fc := x.contractOfFrame(fr); fc != nil && env.aliasDepth == 0 {
+		if al, ok := fc.LocalAlias[name]; ok {
+			if nn := localByOrdinal(fr.Fn, al); nn != "" && nn != name {
+				x.abstraction("contract of %s names a local %q that no longer exists; using the %d. local of type %s (%q) instead", x.P.FuncName(fr.Fn), name, al.Ord, al.Type, nn)
+				n2 := *env
+				n2.aliasDepth = 1
+				return x.lookupLocal(&n2, nn)
 			}
 		}
 	}
@@ -1409,4 +1421,51 @@ func isExternalStruct(t types.Type) bool {
 		return pp != bclPath && pp != mainPath && pp != uvarintPath
 	}
 	return false
+}
+
+// namedLocals: the named locals and captured variables of fn in source order, with their types.
+func namedLocals(fn *ssa.Function) (names []string, typs []string) {
+	q := func(p *types.Package) string { return p.Name() }
+	seen := map[string]bool{}
+	for _, fv := range fn.FreeVars {
+		if pt, ok := fv.Type().(*types.Pointer); ok && !seen[fv.Name()] {
+			seen[fv.Name()] = true
+			names = append(names, fv.Name())
+			typs = append(typs, types.TypeString(pt.Elem(), q))
+		}
+	}
+	type al struct {
+		pos  int
+		name string
+		typ  string
+	}
+	var as []al
+	for _, b := range fn.Blocks {
+		for _, ins := range b.Instrs {
+			if a, ok := ins.(*ssa.Alloc); ok && a.Comment != "" && !strings.Contains(a.Comment, "$") && !strings.Contains(a.Comment, " ") && !seen[a.Comment] {
+				seen[a.Comment] = true
+				as = append(as, al{int(a.Pos()), a.Comment, types.TypeString(a.Type().(*types.Pointer).Elem(), q)})
+			}
+		}
+	}
+	sort.Slice(as, func(i, j int) bool { return as[i].pos < as[j].pos })
+	for _, a := range as {
+		names = append(names, a.name)
+		typs = append(typs, a.typ)
+	}
+	return
+}
+
+func localByOrdinal(fn *ssa.Function, al LocalAlias) string {
+	names, typs := namedLocals(fn)
+	k := 0
+	for i := range names {
+		if typs[i] == al.Type {
+			k++
+			if k == al.Ord {
+				return names[i]
+			}
+		}
+	}
+	return ""
 }
